@@ -93,6 +93,12 @@ func TestVerifC17HRR(t *testing.T) {
 			if rapid.Bool().Draw(rt, "cookielenrandom") {
 				n = rapid.IntRange(1, 300).Draw(rt, "cookielen")
 			}
+			// the cookie must be echoed inside the second hello's extensions block (at most 65535 bytes), together with
+			// everything the first hello already carries and a possibly larger key share: keep the sum below that, or
+			// "cannot be encoded" would be the correct answer of the client
+			if room := 65535 - len(o.Hello.Raw) - 1500; n > room {
+				n = room
+			}
 			cookie = rapid.SliceOfN(rapid.Byte(), n, n).Draw(rt, "cookie")
 		}
 		switch mode {
